@@ -92,6 +92,10 @@ func (f *WithSlots) Call(s *slip.Scope, args slip.List, depth int) (result slip.
 	}
 	for i := 2; i < len(args); i++ {
 		result = slip.EvalArg(ns, args, i, d2)
+		if _, exit := result.(slip.NonLocalExit); exit {
+			// return-from, return or go: control is leaving the body.
+			return
+		}
 	}
 	return
 }
